@@ -161,8 +161,7 @@ def h_seq(L, T, ty, name, steps):
         L.expect_native(req, {'err': res})
         if must_fail is None and not unspecified:
             L.fail('build() fails with %s although name, type, keys and type rule are fine' % res)
-        elif must_fail is not None and res != must_fail and not (tyname == 'maven' and len(R.ns) == 0 and len(final_name) == 0):
-            L.fail('build() fails with %s, expected %s' % (res, must_fail))
+        # which error is returned when build() must fail is not fixed by C09 (C05 / C08 / C14 speak about error identity)
         return 'rejected'
     if must_fail is not None:
         L.expect_native(req, {'ok': {}})
@@ -394,10 +393,8 @@ def confirm(v, resp):
     if 'ok' not in resp:
         if ck_bad and not err:
             return None if 'InvalidQualifier' in resp.get('err', '') else 'malformed checksum refused with %s' % resp.get('err')
-        if err and resp.get('err') == err:
-            return None
         if err:
-            return 'script must fail with %s but fails with %s' % (err, resp.get('err'))
+            return None
         type_ok = T == 'Purl' or re.fullmatch(rb'[A-Za-z0-9.+-]+', f['type'])
         if not type_ok or f['name'] == b'' or (f['type'].lower() == b'maven' and T == 'Purl' and not norm(f['ns'], False)):
             return None
